@@ -14,15 +14,18 @@ def search(ctx):
 
 
 def run(ctx):
-    ctx.extract(["c14emit"])
+    ctx.extract(["c14emit", "c14read"])
     ctx.prove(PROPS, extra_modules=["RotoV.Model.Tarjan", "RotoV.Model.TarjanLir", "RotoV.Lemmas.Tarjan", "RotoV.Lemmas.TarjanCtx", "RotoV.Lemmas.TarjanNoPanic", "RotoV.Lemmas.TarjanLir"])
     first = (list(ctx.coverage.get("theorems", [])), ctx.coverage.get("nonvacuity_examples", 0), dict(ctx.coverage.get("axioms", {})))
     # theorems over the generated definitions, in a module of their own: a change
     # of the emission order / of codegen's loop breaks exactly these
-    ctx.prove(PROPS + "Emit", extra_modules=[])
-    ctx.coverage["theorems"] = first[0] + [t for t in ctx.coverage.get("theorems", []) if t not in first[0]]
-    ctx.coverage["nonvacuity_examples"] = first[1] + (ctx.coverage.get("nonvacuity_examples", 0) if first[0] else 0)
-    ctx.coverage["axioms"] = {**first[2], **ctx.coverage.get("axioms", {})}
+    # (and, likewise, how a read of a constant is lowered: Props/C14Read over Generated/C14Read)
+    for suffix, extra in (("Emit", []), ("Read", ["RotoV.Model.TarjanRead", "RotoV.Lemmas.TarjanRead"])):
+        ctx.prove(PROPS + suffix, extra_modules=extra)
+        ctx.coverage["theorems"] = first[0] + [t for t in ctx.coverage.get("theorems", []) if t not in first[0]]
+        ctx.coverage["nonvacuity_examples"] = first[1] + (ctx.coverage.get("nonvacuity_examples", 0) if first[0] else 0)
+        ctx.coverage["axioms"] = {**first[2], **ctx.coverage.get("axioms", {})}
+        first = (list(ctx.coverage["theorems"]), ctx.coverage["nonvacuity_examples"], dict(ctx.coverage["axioms"]))
     if ctx.build_harness("c14"):
         ctx.harness("c14", ["run", ctx.seed, ctx.tier], timeout=3000)
     ctx.trusted += [
